@@ -35,7 +35,7 @@ def main():
     rnd = random.Random(chk.seed)
     quick = chk.tier == "quick"
     cells = {}
-    for wn, cfgsel, n in (("scalars,containers", [0], 22 if quick else 60), ("json", [0, 2], 16 if quick else 50)):
+    for wn, cfgsel, n in (("scalars,containers", [0], 22 if quick else 80), ("json", [0, 2], 16 if quick else 60)):
         data = json.loads(vlib.harness(["data", "-worlds", wn]).stdout)
         atoms = pool(rnd, data, n)
         world = vlib.make_world(wn.split(","), data["docs"], data["cfgs"], cfgsel, atoms, list(range(len(atoms))), [], 3)
